@@ -182,6 +182,55 @@ func ruleMergeArms(c *Ctx, r *R) {
 			sends := 0
 			incs := 0
 			cmpOK := false
+			handedOver := false
+			// hand-over: when this input closes the remaining ones are given to the merger for one input less and the function
+			// returns (merge3: `merge2(out, in1, in2); return`) - the inputs passed are exactly the others, each once
+			isHandOver := func(call *ast.CallExpr) bool {
+				id, ok := call.Fun.(*ast.Ident)
+				if !ok || id.Name == name || c.decl("chans."+id.Name) == nil || len(call.Args) != len(ins) {
+					return false
+				}
+				if a0, ok := call.Args[0].(*ast.Ident); !ok || info.Uses[a0] != out {
+					return false
+				}
+				got := map[types.Object]int{}
+				for _, a := range call.Args[1:] {
+					aid, ok := a.(*ast.Ident)
+					if !ok {
+						return false
+					}
+					got[info.Uses[aid]]++
+				}
+				for _, in := range ins {
+					want := 1
+					if in == chObj {
+						want = 0
+					}
+					if got[in] != want {
+						return false
+					}
+				}
+				// ... and the call is followed by a return
+				followed := false
+				ast.Inspect(&ast.BlockStmt{List: cc.Body}, func(m ast.Node) bool {
+					var list []ast.Stmt
+					switch b := m.(type) {
+					case *ast.BlockStmt:
+						list = b.List
+					case *ast.CaseClause:
+						list = b.Body
+					}
+					for i := 0; i+1 < len(list); i++ {
+						if es, ok := list[i].(*ast.ExprStmt); ok && es.X == ast.Expr(call) {
+							if _, isRet := list[i+1].(*ast.ReturnStmt); isRet {
+								followed = true
+							}
+						}
+					}
+					return true
+				})
+				return followed
+			}
 			var inspectBody func(body ast.Node, ptrArg map[types.Object]ast.Expr)
 			var visit func(m ast.Node, ptrArg map[types.Object]ast.Expr) bool
 			inspectBody = func(body ast.Node, ptrArg map[types.Object]ast.Expr) {
@@ -190,6 +239,9 @@ func ruleMergeArms(c *Ctx, r *R) {
 			visit = func(m ast.Node, ptrArg map[types.Object]ast.Expr) bool {
 				switch s := m.(type) {
 				case *ast.CallExpr:
+					if isHandOver(s) {
+						handedOver = true
+					}
 					// a local helper (exhausted(&in0)) that does the bookkeeping of a closed input: look inside, with
 					// *param standing for the variable whose address is passed
 					if id, ok := s.Fun.(*ast.Ident); ok {
@@ -284,17 +336,20 @@ func ruleMergeArms(c *Ctx, r *R) {
 				return true
 			}
 			inspectBody(&ast.BlockStmt{List: cc.Body}, nil)
-			if nilAssigned != 1 {
+			if nilAssigned != 1 && !handedOver {
 				problems = append(problems, "must set "+chID.Name+" = nil exactly once when it is closed")
 			}
 			if sends != 1 {
 				problems = append(problems, "must send the received item exactly once")
 			}
-			if incs != 1 {
+			if incs != 1 && !handedOver {
 				problems = append(problems, "must count the closed input exactly once")
 			}
-			if !cmpOK {
+			if !cmpOK && !handedOver {
 				problems = append(problems, "must compare the done-count with the number of inputs")
+			}
+			if handedOver && (nilAssigned != 0 || incs != 0) {
+				problems = append(problems, "mixes the hand-over to the smaller merger with its own bookkeeping")
 			}
 			r.ok(len(problems) == 0, key, cc.Pos(), strings.Join(problems, "; "))
 			return true
